@@ -333,7 +333,7 @@ theorem wH264Gate_cases (st0 st : State) (op : WriteOp) (changed : Bool) :
         simp only [h3, if_false, Bool.false_eq_true]
         refine ⟨h1', ?_, ?_, trivial⟩
         · simpa using h2
-        · simpa using h3
+        · simp
 
 def h264Absorb (st : State) (op : WriteOp) : State :=
   let t := st.track op.track
